@@ -788,7 +788,14 @@ def _violated(case):
             if e[2]:
                 keys = {k for k, _ in e[2]}
                 ident = {n for n, _ in leaves[e[1]]["axes"]} - keys
-                if not F <= ident:
+                vals = {ix[1] for _, ix in e[2] if ix[0] != "const"}
+                if F & (vals | keys):
+                    # a free input of the root used as a substitution value (or named like a substituted
+                    # axis): funsor's convention (test_adjoint_subs_tensor_rename) treats the substitution as
+                    # a renaming and sums the value's inputs inside Scatter, i.e. the returned adjoint is
+                    # already marginalised over that root input — not comparable under the batch reading
+                    out.add("subs-free-value")
+                elif not F <= ident:
                     out.add("subs-free-var")
                 vv = [ix[1] for _, ix in e[2] if ix[0] != "const"]
                 if len(vv) != len(set(vv)) or set(vv) & ident:
